@@ -76,8 +76,13 @@ class Ctx:
         return [f for f in data.get("known", []) if f.get("property") == self.prop]
 
     def finalize(self, explanation):
+        any_v = any(r.violations for r in self.rules)
         for r in self.rules:
-            r.finish()
+            try:
+                r.finish()
+            except EngineError:
+                if not any_v:
+                    raise
         known = self.load_known()
         known_keys = {(k["rule"], k["key"]): k for k in known}
         all_v = [v for r in self.rules for v in r.violations]
@@ -89,6 +94,8 @@ class Ctx:
                 seen_known.add(kk)
             else:
                 new_v.append(v)
+        if getattr(self, "partial", False) and not new_v:
+            raise EngineError(self.notes[-1] if self.notes else "incomplete run")
         for kk in sorted(seen_known):
             k = known_keys[kk]
             print(f"KNOWN-FINDING: property={self.prop} {k['what']} [rule {kk[0]} key {kk[1]}]")
